@@ -11,6 +11,7 @@ import (
 	"os/exec"
 	"path/filepath"
 	"runtime"
+	"runtime/pprof"
 	"sort"
 	"strconv"
 	"strings"
@@ -45,6 +46,10 @@ type knownFile struct {
 	Findings []knownFinding `json:"findings"`
 }
 
+// ScratchDir, RepoDir and VerifDir are the -scratch, -repo and -dir arguments
+// (available to drivers in master and worker processes alike).
+var ScratchDir, RepoDir, VerifDir string
+
 // Main is the entry point of the vcheck binary.
 func Main() {
 	var (
@@ -69,6 +74,7 @@ func Main() {
 		}
 		return
 	}
+	ScratchDir, RepoDir, VerifDir = *scratch, *repo, *dir
 	p := registry[*propID]
 	if p == nil {
 		fmt.Fprintf(os.Stderr, "unknown property %q\n", *propID)
@@ -118,6 +124,12 @@ func workerLoop(p *Prop, tier, markPath string, deadline time.Time) {
 		mark, _ = os.OpenFile(markPath, os.O_CREATE|os.O_RDWR, 0o644)
 	}
 	tasks := p.Tasks(tier)
+	if pf := os.Getenv("VERIF_PROFILE"); pf != "" { // development aid: CPU profile of each worker
+		if f, err := os.Create(pf + "." + os.Getenv("VERIF_WORKER_ID")); err == nil {
+			pprof.StartCPUProfile(f)
+			defer pprof.StopCPUProfile()
+		}
+	}
 	in := bufio.NewScanner(os.Stdin)
 	out := bufio.NewWriterSize(os.Stdout, 1<<20)
 	for in.Scan() {
